@@ -167,6 +167,25 @@ def run(ctx):
                 pass
             except Exception as E:
                 ctx.violation(f'{name}: {what} raised {type(E).__name__}, not AlreadyRunError', dict(config=name, call=what))
+        # a sim stepped to the end by hand and finalised must also refuse a second finalize / a late run, and stay scaled once
+        for second in ('finalize', 'run'):
+            sim2 = mk(seed); sim2.init()
+            run_to(sim2, len(sim2.loop.plan))
+            ctx.count(('guard-manual', name, second)); ctx.dist('guard')
+            try:
+                sim2.finalize()
+            except Exception as E:
+                ctx.violation(f'{name}: finalize() after stepping to the end by hand raised {type(E).__name__}: {E}', dict(config=name, call='manual+finalize')); continue
+            try:
+                getattr(sim2, second)()
+                ctx.violation(f'{name}: {second}() after a manual run to the end + finalize() did not raise AlreadyRunError', dict(config=name, call='manual+finalize+' + second))
+            except ss.AlreadyRunError:
+                pass
+            except Exception as E:
+                ctx.violation(f'{name}: {second}() after manual run + finalize() raised {type(E).__name__}, not AlreadyRunError', dict(config=name, call='manual+finalize+' + second))
+            f2 = fingerprint(sim2)
+            d = diff({k: v for k, v in ref.items() if k.startswith('res.')}, {k: v for k, v in f2.items() if k.startswith('res.')})
+            if d: ctx.violation(f'{name}: results after manual run + finalize() + refused {second}() differ from a plain run (scaled twice?): {d}', dict(config=name, call='manual+finalize+' + second))
         after = {k: np.asarray(v) for k, v in sc.flattendict(sim.results, sep='.').items() if 'timevec' not in k}
         for k in scaled:
             try:
